@@ -102,6 +102,9 @@ def alphabet(tier):
         vals = ["lit", "", " padded "]
         for o in others:
             vals += ["$" + SPELL[o][1], "$$" + o, "${" + SPELL[o][0] + "}x"]
+            # a reference at the edge of the value next to a blank: with an empty (or padded) referent the EXPANDED
+            # value begins / ends with a blank although the written one cannot
+            vals += ["w $" + SPELL[o][0], "${" + SPELL[o][1] + "} w"]
         if tier != "quick":
             vals += ["$" + n, "lit$$"]
         for sp in SPELL[n]:
@@ -634,7 +637,7 @@ def session_shard(arg, acc):
 # wave 3: the name position by code point
 
 POSITIONS = ("alone", "first", "middle", "last")
-CONTEXTS = ("plain", "after-prefix", "included", "redefined", "empty-value")
+CONTEXTS = ("plain", "after-prefix", "included", "redefined", "empty-value", "after-twin")
 
 # one representative per class of character that some notion of "identifier" tells apart
 SIGMA_QUICK = [
@@ -705,6 +708,16 @@ def scenario(tok, ctx, legal):
     elif ctx == "redefined":
         steps = [("define", {MAIN: d + " lit\n" + d + " lit\n"}, acc_or_ref([])),
                  ("redefine", {MAIN: d + " lit\n" + d + " other\n"}, "refused")]
+    elif ctx == "after-twin":
+        # the lower-cased form of the token is a name that already holds the SAME value (so that a legal token in
+        # another letter case is an accepted re-definition): legality must be judged whatever the history says
+        twin = tok.lower()
+        if twin == tok or not lowercases_to_ascii_name(tok):
+            return None
+        pre = "%define " + twin + " lit\n"
+        steps = [("define", {MAIN: pre + d + " lit\n"}, acc_or_ref([])),
+                 ("define", {"file:///v/sub/inc1.conf": d + " lit\n", MAIN: pre + "%include sub/inc1.conf\n"},
+                  acc_or_ref([]))]
     elif ctx == "empty-value":
         steps = [("define", {MAIN: d + "\n"}, acc_or_ref([]))]
         if legal:
@@ -857,7 +870,7 @@ def run(tier):
     run = core.Run(
         "C05", tier, "model_checking",
         rule="(1) breadth-first search over histories of up to %d steps from an alphabet of %d events (%%define of 3 "
-             "names in 2 spellings each x literal / empty / padded / $other / $$other / ${other}x values; %d tokens "
+             "names in 2 spellings each x literal / empty / padded / $other / $$other / ${other}x / 'w $other' / '${other} w' values; %d tokens "
              "that are not names written in the NAME position of a %%define: %s - i.e. every '$'-form of every name "
              "where the name belongs, so that the refusal is explored after every history that has / has not "
              "defined the referenced name; uses of every spelling; enter / leave an %%include-d resource to depth "
